@@ -79,10 +79,20 @@ class Ctx:
         self.trusted_base = []
         self.extra = {}
         self.explanation = ''
+        self.errors = []
         try:
             self.seed = int(os.environ.get('VERIF_SEED', '0'))
         except ValueError:
             self.seed = 0
+
+    def call(self, fn, *args, **kw):
+        """run one rule; a rule that cannot be evaluated (AnalysisError) does not keep the others from running.  The
+        errors are raised together once every rule has had its turn (see main)."""
+        try:
+            return fn(self, *args, **kw)
+        except AnalysisError as e:
+            self.errors.append(str(e))
+            return None
 
     def rule(self, rule_id, desc=''):
         r = RuleRun(self, rule_id, desc)
@@ -216,6 +226,8 @@ def main(prop, level, run, argv=None):
         from .srcmodel import Repo
         repo = Repo()
         run(ctx, repo)
+        if ctx.errors:
+            raise AnalysisError('; '.join(ctx.errors))
         if tier == 'thorough' and not os.environ.get('SA_NO_MODELCHECK'):
             from . import modelcheck
             try:
